@@ -31,6 +31,10 @@ type EncOpts struct {
 	// caller is expected to fill (the harness leaves the zeros: the digest is checked by
 	// spec.go, not by the generated model).
 	NeedDigest bool
+	// ReInit binds the encoder object to the value twice before encoding (Init is exported; an
+	// application that keeps an encoder around and initialises it again for the next value - or for the
+	// same one - must get the lengths of the value it is bound to, not a running total).
+	ReInit bool
 }
 
 // sigInput is one signature field found in a value.
@@ -164,6 +168,9 @@ func (s *State) EncodeValue(m *Model, v any, opts EncOpts) (res Encoded, encoder
 		f.SetUint(uint64(len(sg.value)))
 	}
 	m.Init(encoder, v)
+	if opts.ReInit {
+		m.Init(encoder, v)
+	}
 	res.Announce = ev.FieldByName("length").Uint()
 	if wp := ev.FieldByName("wirePlan"); wp.IsValid() {
 		res.HasPlan = true
